@@ -467,6 +467,7 @@ class Interp:
         self.cfgs = {}
         self.unknown_calls = set()
         self.div_vids = set()
+        self.record_arith = False
         self.cur_line = 0
         # upstream guarantees about values that enter from the assembler's context (checked by C12.R6)
         self.range_hints = {".map": (0, 0xFFFF)}
@@ -617,6 +618,7 @@ class Interp:
 
     def mem_read(self, mem, idx):
         k = self.mem_key(idx)
+        self.events.append(Event("mem", self.call_stack[-1] if self.call_stack else "?", -1, self.cur_line, op="r", idx=idx, key=k, stack=tuple(self.call_stack)))
         if k in mem.cells:
             return mem.cells[k][1], mem
         if mem.havoc is not None:
@@ -629,6 +631,7 @@ class Interp:
 
     def mem_write(self, mem, idx, val):
         k = self.mem_key(idx)
+        self.events.append(Event("mem", self.call_stack[-1] if self.call_stack else "?", -1, self.cur_line, op="w", idx=idx, key=k, val=val, stack=tuple(self.call_stack)))
         cells = dict(mem.cells)
         if val.kind != "int":
             val = IntV.top("u8", val.deps())
@@ -671,6 +674,8 @@ class Interp:
 
     def binop(self, st, op, a, b, dest_ty):
         r = self._binop(st, op, a, b, dest_ty)
+        if op in ("Sub", "SubO", "Lt", "Gt", "Le", "Ge") and a.kind == "int" and b.kind == "int" and self.record_arith:
+            self.events.append(Event("arith", self.call_stack[-1] if self.call_stack else "?", -1, self.cur_line, op=op, a=a, b=b, stack=tuple(self.call_stack)))
         if op in ("Div", "Rem") and r.kind == "int":
             self.div_vids.add(r.vid)
         return r
